@@ -4,7 +4,9 @@ use crate::core::{Cfg, Report, Sink};
 use serde_json::Value;
 use std::sync::Arc;
 
+pub mod c03;
 pub mod kit;
+pub mod langkit;
 pub mod rules;
 
 pub struct Prop {
@@ -15,6 +17,7 @@ pub struct Prop {
 
 pub fn lookup(id: &str) -> Option<Prop> {
     Some(match id {
+        "C03" => Prop { level: "model_checking", run: c03::run, replay: c03::replay },
         "C06" => Prop { level: "model_checking", run: rules::run_c06, replay: rules::replay_c06 },
         "C07" => Prop { level: "model_checking", run: rules::run_c07, replay: rules::replay_c07 },
         "C08" => Prop { level: "model_checking", run: rules::run_c08, replay: rules::replay_c08 },
